@@ -45,6 +45,13 @@ func (a *Application) proxyHandler(w http.ResponseWriter, r *http.Request) {
 		return
 	}
 
+	if len(endpoints) == 0 {
+		if decision := routingRejection(pr); decision != nil {
+			a.writeRoutingRejection(w, pr, decision)
+			return
+		}
+	}
+
 	a.logRequestStart(pr, len(endpoints))
 
 	// Strip the route prefix before forwarding to the backend.
@@ -299,6 +306,33 @@ func (a *Application) buildLogFields(pr *proxyRequest, duration time.Duration) [
 	}
 
 	return fields
+}
+
+// routingRejection returns the model routing decision that rejected this request (model not
+// found on any endpoint, or only on unhealthy ones), or nil if routing did not reject it.
+func routingRejection(pr *proxyRequest) *domain.ModelRoutingDecision {
+	if pr == nil || pr.profile == nil || pr.profile.RoutingDecision == nil {
+		return nil
+	}
+	decision := pr.profile.RoutingDecision
+	if decision.Action == ports.RoutingActionRejected && decision.StatusCode >= http.StatusBadRequest {
+		return decision
+	}
+	return nil
+}
+
+// writeRoutingRejection answers with the status the routing strategy computed (404 when no
+// endpoint lists the model, 503 when only unhealthy ones do) instead of a generic gateway error.
+func (a *Application) writeRoutingRejection(w http.ResponseWriter, pr *proxyRequest, decision *domain.ModelRoutingDecision) {
+	pr.requestLogger.Warn("Request rejected by model routing",
+		"model", pr.model, "strategy", decision.Strategy, "reason", decision.Reason, "status", decision.StatusCode)
+	h := w.Header()
+	h.Set(constants.HeaderXOllaRoutingStrategy, decision.Strategy)
+	h.Set(constants.HeaderXOllaRoutingDecision, decision.Action)
+	if decision.Reason != "" {
+		h.Set(constants.HeaderXOllaRoutingReason, decision.Reason)
+	}
+	http.Error(w, fmt.Sprintf("Model %s is not available: %s", pr.model, decision.Reason), decision.StatusCode)
 }
 
 func (a *Application) handleEndpointError(w http.ResponseWriter, pr *proxyRequest, err error) {
